@@ -435,3 +435,122 @@ def check_alternative_recogniser(ctx, rep, rule='R-CNF.shape'):
         rep.undecided(rule, m, rets[0], 'recogniser outside the fragment: {}'.format(e))
         return
     rep.holds(rule, m, rets[0], 'truth table over all 15 right-hand-side shapes of length <= 3: accepted exactly the empty side, one terminal, two variables')
+
+
+def check_grammar_recogniser(ctx, rep, rule='R-CNF.shape'):
+    """CFG.is_chomsky as a truth table over ONE rule: with c = the rule has a CNF shape, s = the start variable occurs on its
+    right-hand side, e = it is an epsilon rule, v = its left-hand side is the start variable, the method must return
+    c and not s and (not e or v) for all sixteen assignments (the method quantifies over self.R; a one-rule grammar
+    exposes each conjunct)."""
+    g = ctx.prog.func('cfg.CFG.is_chomsky')
+
+    class Rule_:
+        pass
+
+    def ev(e, env, atoms):
+        if isinstance(e, ast.Constant):
+            return e.value
+        if isinstance(e, ast.Name):
+            if e.id in env:
+                return env[e.id]
+            raise Unsupported('name ' + e.id)
+        if isinstance(e, ast.Attribute):
+            t = u(e)
+            if t == 'self.R':
+                return [Rule_]
+            if t == 'self.S':
+                return 'S'
+            base = ev(e.value, env, atoms)
+            if base is Rule_ and e.attr == 'variable':
+                return 'RV'
+            raise Unsupported('attribute ' + t)
+        if isinstance(e, ast.UnaryOp) and isinstance(e.op, ast.Not):
+            return not ev(e.operand, env, atoms)
+        if isinstance(e, ast.BoolOp):
+            vals = [ev(v, env, atoms) for v in e.values]
+            return all(vals) if isinstance(e.op, ast.And) else any(vals)
+        if isinstance(e, ast.IfExp):
+            return ev(e.body, env, atoms) if ev(e.test, env, atoms) else ev(e.orelse, env, atoms)
+        if isinstance(e, ast.Compare) and len(e.ops) == 1:
+            a, b = ev(e.left, env, atoms), ev(e.comparators[0], env, atoms)
+            op = e.ops[0]
+            if {a, b} == {'S', 'RV'} and isinstance(op, (ast.Eq, ast.NotEq)):
+                return atoms['v'] if isinstance(op, ast.Eq) else not atoms['v']
+            if a == 'S' and b == 'VARS' and isinstance(op, (ast.In, ast.NotIn)):
+                return atoms['s'] if isinstance(op, ast.In) else not atoms['s']
+            raise Unsupported('comparison ' + u(e))
+        if isinstance(e, (ast.ListComp, ast.GeneratorExp, ast.SetComp)) and len(e.generators) == 1 and isinstance(e.generators[0].target, ast.Name):
+            gen = e.generators[0]
+            out = []
+            for x in ev(gen.iter, env, atoms):
+                env2 = dict(env)
+                env2[gen.target.id] = x
+                if all(ev(c, env2, atoms) for c in gen.ifs):
+                    out.append(ev(e.elt, env2, atoms))
+            return out
+        if isinstance(e, ast.Call):
+            fn = e.func
+            if isinstance(fn, ast.Name) and fn.id in ('all', 'any', 'list', 'bool') and len(e.args) == 1:
+                v = ev(e.args[0], env, atoms)
+                return {'all': all, 'any': any, 'list': list, 'bool': bool}[fn.id](v)
+            if isinstance(fn, ast.Attribute) and not e.args:
+                base = ev(fn.value, env, atoms)
+                if base is Rule_ and fn.attr == 'is_chomsky':
+                    return atoms['c']
+                if base is Rule_ and fn.attr == 'is_epsilon':
+                    return atoms['e']
+                if base is Rule_ and fn.attr == 'variables':
+                    return 'VARS'
+            raise Unsupported('call ' + u(e))
+        raise Unsupported(type(e).__name__)
+
+    def run(stmts, env, atoms):
+        for st in stmts:
+            if isinstance(st, ast.Expr):
+                continue
+            if isinstance(st, ast.Assign) and len(st.targets) == 1 and isinstance(st.targets[0], ast.Name):
+                env[st.targets[0].id] = ev(st.value, env, atoms)
+                continue
+            if isinstance(st, ast.If):
+                r = run(st.body if ev(st.test, env, atoms) else st.orelse, env, atoms)
+                if r is not None:
+                    return r
+                continue
+            if isinstance(st, ast.For) and isinstance(st.target, ast.Name):
+                for x in ev(st.iter, env, atoms):
+                    env[st.target.id] = x
+                    r = run(st.body, env, atoms)
+                    if r is not None:
+                        return r
+                continue
+            if isinstance(st, ast.Return):
+                return ('ret', ev(st.value, env, atoms))
+            raise Unsupported('statement ' + type(st).__name__)
+        return None
+
+    import itertools
+    bad = None
+    try:
+        for c, s_, e_, v in itertools.product((True, False), repeat=4):
+            atoms = {'c': c, 's': s_, 'e': e_, 'v': v}
+            out = run(g.node.body, {}, atoms)
+            got = bool(out[1]) if out is not None else None
+            want = c and not s_ and (not e_ or v)
+            if got != want and bad is None:
+                bad = (atoms, got, want)
+    except Unsupported as ex:
+        rep.undecided(rule, g, 'def is_chomsky', 'body outside the truth-table fragment: {}'.format(ex))
+        return 0
+    if bad is None:
+        rep.holds(rule, g, 'def is_chomsky', 'for all 16 assignments of (CNF shape, S on the right-hand side, epsilon rule, left-hand side is S) the answer is shape and not S-on-rhs and (not epsilon or lhs = S)')
+    else:
+        atoms, got, want = bad
+        what = []
+        if not atoms['c']:
+            what.append('the rule has no CNF shape')
+        if atoms['s']:
+            what.append('the start variable occurs on its right-hand side')
+        if atoms['e'] and not atoms['v']:
+            what.append('it is an epsilon rule of a variable other than the start variable')
+        rep.violates(rule, g, 'def is_chomsky', 'the grammar-level CNF test answers {} for a one-rule grammar where {} (expected {})'.format(got, ' and '.join(what) or 'all conditions of the normal form hold', want))
+    return 1
